@@ -110,7 +110,7 @@ func c11EngCase(t *testing.T, f *c11Fix, tr *tracer, r *rng, ci int, variant str
 			fund(t, a, ctx, f.bidders[i], sdk.NewCoins(sdk.NewCoin(f.c11Denom(lotDenom), sdk.NewInt(r.pickI(5, 100000)))))
 		}
 	}
-	collFunded := !r.chance(12) // V2S: the collector holds the lot (or not: the close then fails)
+	collFunded := !r.chance(12) // V2S: the lot is still where the start put it (or not: the close then fails)
 	tmStarve := r.chance(10)     // tokenmint supply too small for the burn: the close fails
 	f.c11Collector(t, ctx, !rev, lot, debtLot, factor)
 	f.c11V1Params(ctx, dur, bidDur)
@@ -148,18 +148,40 @@ func c11EngCase(t *testing.T, f *c11Fix, tr *tracer, r *rng, ci int, variant str
 		auctionID, mappingID = as[0].AuctionId, as[0].AuctionMappingId
 		sell0, buy0 = as[0].ExpectedMintedToken.Amount, as[0].ExpectedUserToken.Amount
 	case "V2S":
-		if collFunded {
-			f.c11FundModule(t, ctx, "collectorV1", sdk.NewCoin(c11Cmst, lot.Add(sdk.NewInt(7))))
-		}
-		coll, debt := sdk.NewCoin(c11Cmst, lot), sdk.NewCoin(c11Harbor, sdk.ZeroInt())
-		if err := a.NewliqKeeper.CreateLockedVault(ctx, 0, 0, "", coll, debt, coll, debt, sdk.ZeroDec(), f.app, false, "", "", sdk.ZeroInt(), sdk.ZeroInt(), "surplus", false, false, f.cmst, f.harbor); err != nil {
+		// the REAL start: net fees >= surplus threshold + lot, the collector holds (at least) the lot;
+		// liquidationsV2 CheckStatsForSurplusAndDebt -> collector.GetAmountFromCollector moves the lot
+		// from the collector to the generation-1 auction module account (and lowers the net fees by it),
+		// then creates the locked vault -> the english auction.  The close takes the lot from there.
+		extra := sdk.NewInt(r.pickI(0, 7, 5000)).Add(lot.MulRaw(r.pickI(0, 0, 1, 2))) // what the collector holds beyond the lot
+		f.c11FundModule(t, ctx, "collectorV1", sdk.NewCoin(c11Cmst, lot.Add(extra)))
+		if err := a.CollectorKeeper.SetNetFeeCollectedData(ctx, f.app, f.cmst, lot.Add(sdk.NewInt(1000+r.pickI(0, 1, 5000)))); err != nil {
 			t.Fatal(err)
+		}
+		if err := a.NewliqKeeper.CheckStatsForSurplusAndDebt(ctx, f.app, f.cmst); err != nil {
+			t.Fatalf("V2S: CheckStatsForSurplusAndDebt: %v", err)
+		}
+		if got := a.BankKeeper.GetBalance(ctx, modAddr(auctiontypes.ModuleName), c11Cmst).Amount; !got.Equal(lot) {
+			t.Fatalf("V2S: the start left %s in the generation-1 auction module account, lot %s", got, lot)
+		}
+		if !collFunded {
+			// the lot source not funded: something else has taken (a part of) the lot out of the
+			// generation-1 auction module account before the close (all of it / one coin)
+			drain := lot
+			if r.chance(50) {
+				drain = sdk.OneInt()
+			}
+			if err := a.BankKeeper.SendCoinsFromModuleToAccount(ctx, auctiontypes.ModuleName, addrN(91), sdk.NewCoins(sdk.NewCoin(c11Cmst, drain))); err != nil {
+				t.Fatalf("V2S: drain: %v", err)
+			}
 		}
 		sell0, buy0 = lot, sdk.ZeroInt()
 	case "V2D":
-		coll, debt := sdk.NewCoin(c11Harbor, debtLot), sdk.NewCoin(c11Cmst, lot)
-		if err := a.NewliqKeeper.CreateLockedVault(ctx, 0, 0, "", coll, debt, coll, debt, sdk.ZeroDec(), f.app, false, "", "", sdk.ZeroInt(), sdk.ZeroInt(), "debt", false, true, f.cmst, f.harbor); err != nil {
+		// the REAL start: net fees <= debt threshold - lot (= 1000), debt auctions switched on
+		if err := a.CollectorKeeper.SetNetFeeCollectedData(ctx, f.app, f.cmst, sdk.NewInt(r.pickI(0, 1, 1000))); err != nil {
 			t.Fatal(err)
+		}
+		if err := a.NewliqKeeper.CheckStatsForSurplusAndDebt(ctx, f.app, f.cmst); err != nil {
+			t.Fatalf("V2D: CheckStatsForSurplusAndDebt: %v", err)
 		}
 		sell0, buy0 = debtLot, lot
 	case "V2X":
@@ -219,7 +241,8 @@ func c11EngCase(t *testing.T, f *c11Fix, tr *tracer, r *rng, ci int, variant str
 		}
 		var sb strings.Builder
 		fmt.Fprintf(&sb, "obs %s %s %s %d %d %d %d %d", b2s(o.found), o.sell, o.buy, o.bidder, o.nbids, o.bidEnd, o.end, o.status)
-		for _, acc := range []sdk.AccAddress{modAddr(modName), modAddr("collectorV1"), f.ext, modAddr("tokenmint")} {
+		// MOD COLL EXT TM AUC1 (the generation-1 auction module account: the lot source of V2S; for V1S / V1D it is MOD itself)
+		for _, acc := range []sdk.AccAddress{modAddr(modName), modAddr("collectorV1"), f.ext, modAddr("tokenmint"), modAddr(auctiontypes.ModuleName)} {
 			fmt.Fprintf(&sb, " %s %s", bal(a, ctx, acc, f.c11Denom(bidDenom)), bal(a, ctx, acc, f.c11Denom(lotDenom)))
 		}
 		for i := 0; i < nb; i++ {
